@@ -4041,7 +4041,7 @@ func (r *vpRun) buildOverlap(rng *rand.Rand) {
 	w := r.newWorld(rng)
 	defer r.emit("p verdict", "ok")
 	kind := rng.Intn(3)
-	deadline := time.Now().Add(1500 * time.Millisecond)
+	deadline := time.Now().Add(500 * time.Millisecond)
 	switch kind {
 	case 0:
 		c := NewCollection()
@@ -4057,7 +4057,7 @@ func (r *vpRun) buildOverlap(rng *rand.Rand) {
 			}
 		}()
 		built := 0
-		for i := 0; i < 4000 && time.Now().Before(deadline); i++ {
+		for i := 0; i < 1500 && time.Now().Before(deadline); i++ {
 			p, err := c.Build()
 			if err != nil {
 				if !errors.Is(err, ErrServiceNotFound) {
